@@ -19,13 +19,22 @@ func init() {
 			return
 		}
 		info := pk.TypesInfo
-		isDataTypeEq := func(e ast.Expr) (eq bool, ok bool) {
-			be, isB := unparen(e).(*ast.BinaryExpr)
+		defs := localDefs(info, fd.Body)
+		// the test may be written through single-definition locals (`same := l.DataType == r.DataType`,
+		// `ldt, rdt := l.DataType, r.DataType`) and negated
+		var isDataTypeEq func(e ast.Expr) (eq bool, ok bool)
+		isDataTypeEq = func(e ast.Expr) (eq bool, ok bool) {
+			e = defs.resolve1(info, e)
+			if u, isU := e.(*ast.UnaryExpr); isU && u.Op == token.NOT {
+				eq, ok = isDataTypeEq(u.X)
+				return !eq, ok
+			}
+			be, isB := e.(*ast.BinaryExpr)
 			if !isB || (be.Op != token.EQL && be.Op != token.NEQ) {
 				return false, false
 			}
-			lx, ok1 := unparen(be.X).(*ast.SelectorExpr)
-			ly, ok2 := unparen(be.Y).(*ast.SelectorExpr)
+			lx, ok1 := defs.resolve1(info, be.X).(*ast.SelectorExpr)
+			ly, ok2 := defs.resolve1(info, be.Y).(*ast.SelectorExpr)
 			if !ok1 || !ok2 || lx.Sel.Name != "DataType" || ly.Sel.Name != "DataType" || c.src(lx.X) == c.src(ly.X) {
 				return false, false
 			}
@@ -43,7 +52,8 @@ func init() {
 			}
 			n++
 			differ := false
-			for _, ft := range factsOf(guardsAt(info, stack)) {
+			facts := factsThroughLocals(info, defs, append(guardsAt(info, stack), priorSwitchExits(info, stack)...))
+			for _, ft := range facts {
 				if eq, ok := isDataTypeEq(ft.E); ok && eq != ft.True {
 					differ = true
 				}
@@ -53,4 +63,61 @@ func init() {
 		})
 		c.MinCount("R06h", "numeric coercions in compareTypes", n, 2)
 	})
+}
+
+// priorSwitchExits: the `switch { case a, b: return … }` spelling of `if a || b { return … }` — for every
+// tagless switch that precedes the node in an enclosing block, the case expressions of its leading arms
+// whose bodies leave the function/loop (return, goto, continue, panic — not break, which only leaves the
+// switch) are known false afterwards. Arms behind the first arm that can fall out of the switch, and
+// default arms, give no fact.
+func priorSwitchExits(info *types.Info, stack []ast.Node) []Guard {
+	var gs []Guard
+	scan := func(list []ast.Stmt, child ast.Node) {
+		for _, s := range list {
+			if ast.Node(s) == child {
+				return
+			}
+			sw, ok := s.(*ast.SwitchStmt)
+			if !ok || sw.Tag != nil || sw.Init != nil {
+				continue
+			}
+			for _, a := range sw.Body.List {
+				cc := a.(*ast.CaseClause)
+				if cc.List == nil || len(cc.Body) == 0 || !terminates(info, cc.Body) {
+					break
+				}
+				if b, isB := cc.Body[len(cc.Body)-1].(*ast.BranchStmt); isB && b.Tok == token.BREAK {
+					break
+				}
+				for _, e := range cc.List {
+					gs = append(gs, Guard{Cond: e, Neg: true})
+				}
+			}
+		}
+	}
+	for i := 0; i+1 < len(stack); i++ {
+		switch p := stack[i].(type) {
+		case *ast.BlockStmt:
+			scan(p.List, stack[i+1])
+		case *ast.CaseClause:
+			scan(p.Body, stack[i+1])
+		}
+	}
+	return gs
+}
+
+// factsThroughLocals: factsOf(gs), plus — for every fact that is a bare bool local defined once
+// (`same := a == b; if same || other { return }`) — the facts of its defining expression. The caller is
+// responsible for the operands of that expression not changing between the definition and the test.
+func factsThroughLocals(info *types.Info, defs defMap, gs []Guard) []Fact {
+	var facts []Fact
+	for _, ft := range factsOf(gs) {
+		facts = append(facts, ft)
+		if id, isID := ft.E.(*ast.Ident); isID {
+			if d := defs.resolve1(info, id); d != ast.Expr(id) {
+				facts = append(facts, factsOf([]Guard{{Cond: d, Neg: !ft.True}})...)
+			}
+		}
+	}
+	return facts
 }
